@@ -19,16 +19,16 @@ BUILT = {
          "Seeded policy answer sequences (with varying request parameters) interleaved with timers and control requests; every request, install and reboot must be preceded by the matching consent and carry the consented parameters.",
          "Pings during a reboot wait use fixed parameters by design of the statement."),
  "C06": ("deterministic simulation with stratified per-attempt fault sequences and entropy differential re-runs", "6.C06",
-         "Per-attempt outcomes of the first check are stratified over the adversary alphabet^3; retry/no-retry, backoff windows, id freshness and metrics are checked per check; jitter by re-running the same schedule under 8 entropy streams.",
+         "Per-attempt outcomes of the first check are stratified over the adversary alphabet^3; retry/no-retry, backoff windows, id freshness and metrics are checked per check; jitter by re-running the same schedule under 8 entropy streams. The embedder's neighbour task changes an app's cohort hint in the shared app set, so that it can land between two attempts: the payload of a retry must not change.",
          "X-Retry-After reading per statement ('+N' either way)."),
  "C07": ("deterministic simulation with header-value faults, probe restarts after every commit and real crashes", "6.C07",
-         "Header-value classes x status x request kind; a reference model of the interval is compared with every policy argument, announcement and with what a machine rebuilt on each committed map presents.",
+         "Header-value classes x status x request kind; a reference model of the interval is compared with every policy argument, announcement and with what a machine rebuilt on each committed map presents. A partial-storage-fault batch makes writes and removals of the neighbouring key last_update_time fail: the interval must still reach storage.",
          "Atomic commit; '+N' and duplicate headers accept any listed reading."),
  "C08": ("deterministic simulation of a volatile-cache disk with crash injection and probe restarts; 3-field reference model", "6.C08",
          "Histories of checks and pings over all outcome classes; the model (failures, last contact) is compared with announcements, policy arguments, the state presented by a machine rebuilt on every committed map, and by the machine really rebuilt after a crash at a drawn interaction.",
          "Storage contract (atomic commit, read-your-writes); which clock reading inside the check becomes the last-contact time is open."),
  "C09": ("deterministic simulation; per-app reference record vs requests, policy arguments and probe restarts", "6.C09",
-         "Responses with every subset of cohort fields (absent vs empty) and daystart for any subset/order of the app set; record compared with the next requests, policy arguments and restarts with embedder presets.",
+         "Responses with every subset of cohort fields (absent vs empty) and daystart for any subset/order of the app set; record compared with the next requests, policy arguments and restarts with embedder presets. Joint commit rule: a commit that still restores the previous app data must also still hold the previous last-contact time.",
          "Unique app ids in server documents."),
  "C11": ("deterministic simulation of control-handle clients with seeded select! order; interval oracle on sequence numbers", "6.C11",
          "Requests are released inside in-flight operations with batch readiness; each reply must be justified by a policy decision / busy interval inside [invoke, reply]; on-demand upgrade both ways; gone-after-drop; wake-up without timer in a far-timer profile.",
@@ -40,26 +40,26 @@ BUILT = {
          "Multi-app responses x policy decisions x installer result vectors x delivery outcome of each report; the event-bearing requests of every completed check are compared (count, order, apps, codes, versions) with the path's prescription, and lost-event accounting is checked per undeliverable report.",
          "Empty-app-list reports may be sent or not; lost-event count for a multi-app single-event report is 1 or one per app."),
  "C13": ("deterministic simulation of consumer polling schedules: generator programs in isolation and the state machine under lazy / spurious polling", "6.C13",
-         "Random generator programs under random consumer schedules through all four adaptors (items in order, exactly one completion, end, back-pressure, wake-up discipline, termination), plus in-situ back-pressure and progress-order rules on the state machine under lazy consumers.",
+         "Random generator programs under random consumer schedules through all four adaptors (items in order, exactly one completion, end, back-pressure, wake-up discipline, termination), plus in-situ back-pressure and progress-order rules on the state machine under lazy consumers. The simulated installer repeats progress values, cancels reports after their first poll and has two reports in flight at once.",
          "into_complete hides item receipt; a halt is judged only while the stream is alive."),
  "C14": ("deterministic simulation with hostile inputs and differential re-runs (storage failures on/off)", "6.C14",
-         "Garbage/bit-flipped/truncated bodies, hostile stored values, malformed URLs, wall-clock jumps, metrics errors and crashes with a formatting log subscriber installed; any panic while library code runs is a violation; the same seed is re-run with storage failures switched off and requests/events must be identical.",
+         "Garbage/bit-flipped/truncated bodies, hostile stored values, malformed URLs, wall-clock jumps, metrics errors and crashes with a formatting log subscriber installed; any panic while library code runs is a violation; the same seed is re-run with storage failures switched off and requests/events must be identical. ETags with a request-hash half of another length and arbitrary ETag texts arrive in situ with CUP on; a run that does not return is reported as a hang.",
          "Policy/installer answers conform to their contracts; differential rule within one lifetime."),
- "C15": ("deterministic simulation; in-situ wire-shape oracle (independent encoder) on every request sent", "6.C15",
-         "Every request the state machine sends in whole-flow runs is decoded at the simulated server and compared with an independently written encoder applied to the model state. Only request shapes the state machine actually issues are covered (including the same app id added twice, via an app list with a repeated id); other builder call sequences are not claimed.",
+ "C15": ("deterministic simulation; wire-shape oracle (independent encoder) on every request sent in situ, plus a direct-builder harness for operation sequences", "6.C15",
+         "Every request the state machine sends in whole-flow runs is decoded at the simulated server and compared with an independently written encoder applied to the model state. Only request shapes the state machine actually issues are covered (including the same app id added twice, via an app list with a repeated id); other builder call sequences are not claimed. A second harness (batch c15-direct) drives RequestBuilder directly with drawn operation sequences {add update check, add ping, add event, set ids, build}, builds in mid-sequence and twice, and compares each built request as a JSON value with an independent encoder of the operations so far (no schedule or fault in that batch; DESIGN.md 5B).",
          "App state from policy arguments (C09 checks those); versions rebuilt from configured components."),
  "C16": ("deterministic simulation; in-situ parser oracle on bytes arriving from the faulty network", "6.C16",
-         "Grammar-generated documents, byzantine documents and garbage/truncated/bit-flipped/deeply nested bodies reach the parser through the state machine (CUP off); the announced decode is compared with the document or with an independent reading of the bytes; required-field removals must be rejected; no panic.",
+         "Grammar-generated documents, byzantine documents and garbage/truncated/bit-flipped/deeply nested bodies reach the parser through the state machine (CUP off); the announced decode is compared with the document or with an independent reading of the bytes; required-field removals must be rejected; no panic. Documents nested up to 10^6 levels deep at the positions where the grammar accepts arbitrary JSON are parsed in child processes of the simulator (a stack overflow aborts the process); a child that dies is a violation.",
          "serde_json::Value as the independent reading."),
  "C17": ("deterministic simulation of client <-> real mock server in one process with reconfiguration races", "6.C17",
-         "The real client stack and the real mock_omaha_server::handle_request exchange requests through the transport seam; answers must parse with the client parser, list requested apps in order with the configured decision, verify with the client verifier for this exchange only, and lead the state machine to the configured outcome; admin reconfigurations race with exchanges.",
+         "The real client stack and the real mock_omaha_server::handle_request exchange requests through the transport seam; answers must parse with the client parser, list requested apps in order with the configured decision, verify with the client verifier for this exchange only, and lead the state machine to the configured outcome; admin reconfigurations race with exchanges. Also: the client library used directly to send update check + event on one app; a second connection stalled mid-body while the client's request must still be answered (handler futures polled by hand, bounded).",
          "Ping-only requests are outside the stated class and not sent; absolute-form to origin-form URI conversion in the seam."),
  "C18": ("deterministic simulation of install histories with crash / reboot injection and restart on target or other version", "6.C18",
-         "A model of first-seen time, consecutive failed installs and the pending-reboot record is compared with metrics and restart behaviour over histories with crashes at drawn interactions (biased to recovery paths), reboots and version changes. One known finding (double report when the process dies between report and clear) is listed in KNOWN_FINDINGS.txt.",
-         "Wall-clock jumps only between lifetimes; 1 us tolerance; attempts cut by a crash may count or not."),
- "C19": ("deterministic simulation of clock trajectories x storage round trip x restart (persistence path only)", "6.C19",
-         "Pre-epoch, sub-microsecond and beyond-i64-microsecond wall clocks plus hostile stored integers; every stored time must come back truncated toward the epoch at microsecond precision (exact comparisons) or be dropped exactly when it does not fit, and be re-persisted unchanged. The pure two-clock algebra and truncate_submicrosecond_walltime are not reachable through any seam and are NOT claimed.",
-         "Partial claim: persistence path only (DESIGN.md 6.C19)."),
+         "A model of first-seen time, consecutive failed installs and the pending-reboot record is compared with metrics and restart behaviour over histories with crashes at drawn interactions (biased to recovery paths), reboots and version changes. One known finding (double report when the process dies between report and clear) is listed in KNOWN_FINDINGS.txt. Since the third wave: wall-clock steps inside a lifetime with a per-trip model of the waited-for-reboot report (retried until the clocks allow it), partial storage faults on the first-seen time (plan id rollback), times outside the i64-microsecond range modelled exactly, and a directed batch for a report that is delayed past another install.",
+         "1 us tolerance; attempts cut by a crash may count or not; which clock reading of a trip is the loop-top one is not observable (a report must match some reading of its trip)."),
+ "C19": ("deterministic simulation of clock trajectories x storage round trip x restart, and of the comparison clause at the timer seam", "6.C19",
+         "Pre-epoch, sub-microsecond and beyond-i64-microsecond wall clocks plus hostile stored integers; every stored time must come back truncated toward the epoch at microsecond precision (exact comparisons) or be dropped exactly when it does not fit, and be re-persisted unchanged. The pure two-clock algebra and truncate_submicrosecond_walltime are not reachable through any seam and are NOT claimed. Rule R5: the simulated timer asks the library's is_after_or_eq_any when it is armed and when it fires, under wall-clock steps between the two; the answer is compared with the integer comparison of the recorded clock values.",
+         "Partial claim: persistence path and the comparison clause at the timer seam; the rest of the two-clock algebra is not claimed (DESIGN.md 6.C19)."),
 }
 
 NOT_APPLICABLE = {
